@@ -606,6 +606,13 @@ func TestC01_R_DeepNarrowFile(t *testing.T) {
 // Independent calls running in parallel goroutines (each with its own inputs, link system and store) must not influence
 // one another: builders and readers are functions of their arguments. (C17 is about sharing ONE node; this is about
 // sharing nothing but the package.)
+// yieldingStore is a fresh store that gives up the processor at every storage call on odd rounds (see Store.Yield).
+func yieldingStore(r int) *Store {
+	st := NewStore()
+	st.Yield = r%2 == 1
+	return st
+}
+
 func TestC02_R_ConcurrentIndependentBuilds(t *testing.T) {
 	const G, rounds = 8, 120
 	type job struct {
@@ -638,7 +645,7 @@ func TestC02_R_ConcurrentIndependentBuilds(t *testing.T) {
 				}
 			}()
 			for r := 0; r < rounds; r++ {
-				st := NewStore()
+				st := yieldingStore(r)
 				c, _, err := buildSharded(st, jobs[g].es, jobs[g].fanout)
 				if err != nil || c != jobs[g].want {
 					errs <- fmt.Sprintf("goroutine %d round %d: sharded build (fanout %d, %d entries) returned %s (err %v), alone it returns %s", g, r, jobs[g].fanout, len(jobs[g].es), c, err, jobs[g].want)
@@ -693,7 +700,7 @@ func TestC07_R_ConcurrentIndependentBuilds(t *testing.T) {
 			defer wg.Done()
 			for r := 0; r < rounds; r++ {
 				ck := []string{"", "default", "size-262144"}[r%3]
-				c, _, err := buildFile(NewStore(), jobs[g].data, ck, 174)
+				c, _, err := buildFile(yieldingStore(r/3), jobs[g].data, ck, 174)
 				if err != nil || c != jobs[g].want {
 					errs <- fmt.Sprintf("goroutine %d round %d: file of %d bytes (chunker %q) built as %s (err %v), alone as %s", g, r, len(jobs[g].data), ck, c, err, jobs[g].want)
 					return
@@ -735,6 +742,7 @@ func TestC03_R_ConcurrentIndependentTraversals(t *testing.T) {
 		if err != nil {
 			t.Fatal(err)
 		}
+		st.Yield = g%2 == 1
 		jobs[g] = job{st, root, names}
 	}
 	errs := make(chan string, G)
@@ -929,7 +937,7 @@ func TestC10_R_ConcurrentIndependentBuilds(t *testing.T) {
 				}
 			}()
 			for r := 0; r < rounds; r++ {
-				c, sz, err := buildShardedHasher(NewStore(), jobs[g].es, 16, jobs[g].hasher)
+				c, sz, err := buildShardedHasher(yieldingStore(r), jobs[g].es, 16, jobs[g].hasher)
 				if err != nil || c != jobs[g].want || sz != jobs[g].wsz {
 					errs <- fmt.Sprintf("goroutine %d round %d: sharded build with name hash 0x%x returned %s/%d (err %v), alone %s/%d", g, r, jobs[g].hasher, c, sz, err, jobs[g].want, jobs[g].wsz)
 					return
@@ -947,6 +955,7 @@ func TestC10_R_ConcurrentIndependentBuilds(t *testing.T) {
 func TestC11_R_ConcurrentBuildsThroughOneLinkSystem(t *testing.T) {
 	const G, rounds = 8, 800
 	st := NewStore()
+	st.Yield = true
 	ls := st.LinkSystem() // shared by all goroutines
 	type job struct {
 		data []byte
